@@ -599,6 +599,8 @@ def _job_split(a, c, env):
         return (tuple(obs["events"]), tuple(obs["pongs"]), tuple(obs["closes"]),
                 tuple(obs["calls"]), obs["state"], tuple(obs["onclose"]), tuple(obs["escapes"]))
     for seq in seqs:
+        if _garbage_deflate(seq):
+            continue       # garbage deflate data is outside the alphabet (ASSUMPTIONS)
         stream = b"".join(d[k] for k in seq)
         v = R.judge(stream, _refctx(c))
         base = run_stream(c, [stream])
